@@ -270,6 +270,6 @@ func runC15(ctx *core.Ctx) {
 	ctx.AddTraces(int64(len(cases)))
 	ctx.Extra("matrix_cells", cells)
 	if ctx.DistinctCount("outcome") != 2 {
-		core.InternalError("C15: vacuous (panic and non-panic outcomes were not both observed)")
+		ctx.Vacuous("C15: vacuous (panic and non-panic outcomes were not both observed)")
 	}
 }
